@@ -677,10 +677,26 @@ func (c *Ctx) rulesR5misc(only string, a *coreAnchors) {
 					if !canReach(s.Instr, rs.Instr) {
 						continue
 					}
+					isCanc := false
+					extra := 0
+					base := guardsOf(s.Instr.Block())
 					for _, g := range guardsOf(rs.Instr.Block()) {
 						if gCmpConst("result == Canceled", a.tResult, a.vCanceled, true, nil).Match(g) {
-							good = true
+							isCanc = true
+							continue
 						}
+						shared := false
+						for _, bg := range base {
+							if bg.Cond == g.Cond && bg.Pol == g.Pol {
+								shared = true
+							}
+						}
+						if !shared {
+							extra++
+						}
+					}
+					if isCanc && extra == 0 {
+						good = true
 					}
 				}
 				c.check(good, "C08.finalto", "emitEvents: emitFinalEvents"+nth(i)+" is followed by recoverFinalPhase under result == Canceled", s.Instr.Pos(),
